@@ -199,20 +199,10 @@ impl IndexMapSubsetPlan {
         outer_map: &IncBiMap,
         inner_maps: &[IncBiMap],
     ) {
-        self.inner_bit_count = 1;
-
-        for (max_inner, inner_map) in self.max_inners.iter().zip(inner_maps) {
-            if inner_map.len() == 0 || *max_inner == 0 {
-                continue;
-            }
-
-            let bit_count = 32
-                - inner_map
-                    .get(*max_inner as u32)
-                    .unwrap_or(&0)
-                    .leading_zeros() as u8;
-            self.inner_bit_count = bit_count.max(self.inner_bit_count);
-        }
+        // The inner bit count must hold the largest *new* inner index this map refers to. (The
+        // new index of the largest old inner index is not enough: rows of subtable 0 that are
+        // only referenced by a side bearing map come after the rows of an implicit advance map.)
+        let mut max_new_inner = 0_u32;
 
         for (new_gid, old_gid) in plan.new_to_old_gid_list.iter() {
             if new_gid.to_u32() as u16 >= self.map_count {
@@ -235,9 +225,12 @@ impl IndexMapSubsetPlan {
 
             let new_outer = outer_map.get(outer as u32).unwrap();
             let new_inner = inner_maps[outer as usize].get(v.inner as u32).unwrap();
+            max_new_inner = max_new_inner.max(*new_inner);
             self.output_map
                 .insert(new_gid.to_u32(), (*new_outer << 16) | *new_inner);
         }
+
+        self.inner_bit_count = ((32 - max_new_inner.leading_zeros()) as u8).max(1);
     }
 
     fn is_identity(&self) -> bool {
@@ -306,11 +299,15 @@ impl HvarVvarSubsetPlan {
                 .contains(SubsetFlags::SUBSET_FLAGS_RETAIN_GIDS);
 
         if retain_adv_map {
-            let inner_map = plan
+            let mut inner_map: IncBiMap = plan
                 .new_to_old_gid_list
                 .iter()
                 .map(|(_, old_gid)| old_gid.to_u32())
                 .collect();
+            // rows of subtable 0 that only the side bearing maps refer to
+            for i in inner_sets[0].iter() {
+                inner_map.add(i as u32);
+            }
             this.inner_maps.push(inner_map);
         } else {
             let mut inner_map = adv_set.iter().map(|g| g as u32).collect::<IncBiMap>();
@@ -698,6 +695,75 @@ mod test {
                             .unwrap(),
                         hvar.advance_width_delta(GlyphId::from(old_gid), &coords)
                             .unwrap()
+                    );
+                }
+            }
+        }
+    }
+
+    // HVAR without an advance width mapping but with an lsb mapping that refers to delta sets
+    // of subtable 0 that belong to no retained glyph
+    #[test]
+    fn test_subset_hvar_implicit_advance_mapping_with_lsb_mapping() {
+        use write_fonts::types::F2Dot14;
+        let raw_bytes: [u8; 86] = [
+            0x00, 0x01, 0x00, 0x00, 0x00, 0x00, 0x00, 0x14, 0x00, 0x00, 0x00, 0x00, 0x00, 0x00,
+            0x00, 0x4a, 0x00, 0x00, 0x00, 0x00, 0x00, 0x01, 0x00, 0x00, 0x00, 0x26, 0x00, 0x01,
+            0x00, 0x00, 0x00, 0x0c, 0x00, 0x08, 0x00, 0x00, 0x00, 0x02, 0x00, 0x00, 0x00, 0x01,
+            0x01, 0xff, 0x0b, 0xfe, 0x15, 0xfd, 0x1f, 0xfc, 0x29, 0xfb, 0x33, 0xfa, 0x3d, 0xf9,
+            0x47, 0xf8, 0x00, 0x01, 0x00, 0x02, 0x00, 0x00, 0x40, 0x00, 0x40, 0x00, 0xc0, 0x00,
+            0xc0, 0x00, 0x00, 0x00, 0x00, 0x03, 0x00, 0x08, 0x01, 0x01, 0x02, 0x03, 0x04, 0x05,
+            0x05, 0x07,
+        ];
+
+        let hvar = Hvar::read(FontData::new(&raw_bytes)).unwrap();
+        assert!(hvar.advance_width_mapping().is_none());
+        assert!(hvar.lsb_mapping().is_some());
+
+        for retain_gids in [false, true] {
+            let mut builder = FontBuilder::new();
+            //dummy font
+            let font = FontRef::new(&raw_bytes).unwrap();
+
+            let mut plan = Plan::default();
+            let kept: [(u32, u32); 2] = if retain_gids {
+                [(0, 0), (5, 5)]
+            } else {
+                [(0, 0), (1, 5)]
+            };
+            for (new_gid, old_gid) in kept {
+                plan.new_to_old_gid_list
+                    .push((GlyphId::from(new_gid), GlyphId::from(old_gid)));
+                plan.glyphset.insert(GlyphId::from(old_gid));
+            }
+            if retain_gids {
+                plan.subset_flags |= SubsetFlags::SUBSET_FLAGS_RETAIN_GIDS;
+            }
+
+            let mut s = Serializer::new(1024);
+            assert_eq!(s.start_serialize(), Ok(()));
+            let ret = hvar.subset(&plan, &font, &mut s, &mut builder);
+            assert!(ret.is_ok());
+            assert!(!s.in_error());
+            s.end_serialize();
+
+            let subsetted_data = s.copy_bytes();
+            let subset_hvar = Hvar::read(FontData::new(&subsetted_data)).unwrap();
+            for coord in [-1.0, -0.5, 0.25, 1.0] {
+                let coords = [F2Dot14::from_f32(coord)];
+                for (new_gid, old_gid) in kept {
+                    assert_eq!(
+                        subset_hvar
+                            .advance_width_delta(GlyphId::from(new_gid), &coords)
+                            .unwrap(),
+                        hvar.advance_width_delta(GlyphId::from(old_gid), &coords)
+                            .unwrap()
+                    );
+                    assert_eq!(
+                        subset_hvar
+                            .lsb_delta(GlyphId::from(new_gid), &coords)
+                            .unwrap(),
+                        hvar.lsb_delta(GlyphId::from(old_gid), &coords).unwrap()
                     );
                 }
             }
